@@ -216,26 +216,21 @@ class AstModel:
         # for the AST of the SOURCE text: the nested code objects of `code` with the source span their instructions cover, so that a
         # nested generator / lambda is numbered like the code object CPython made for it (by position, not by order: CPython drops the
         # code of an operand it folds away, `d or 's' or (y for y in x)`, and compiles the yielded expression after the clauses)
-        self.spans = None; self.claimed = set()
+        self.spans = None
         if code is not None:
-            self.spans = []
-            for k, c in enumerate(code_consts(code)):
-                pos = [(a, b, cs, ce) for a, b, cs, ce in c.co_positions() if a is not None and cs is not None and not (cs == 0 and ce == 0)]
-                self.spans.append((k, c.co_name, min([(a, cs) for a, b, cs, ce in pos], default=None), max([(b, ce) for a, b, cs, ce in pos], default=None)))
+            # the LOAD_CONST that loads a nested code object carries exactly the source span of the Lambda / GeneratorExp node
+            inner = code_consts(code); self.spans = {}
+            for i in dis.get_instructions(code):
+                if i.opname == 'LOAD_CONST' and isinstance(i.argval, types.CodeType) and i.positions is not None:
+                    ps = i.positions
+                    self.spans.setdefault((ps.lineno, ps.col_offset, ps.end_lineno, ps.end_col_offset), inner.index(i.argval))
     def number(self, n):
-        """the number k of `<genexpr:k>` for a nested generator / lambda node"""
+        """the number k of `<genexpr:k>` / `<lambda:k>` for a nested generator / lambda node"""
         k = len(self.nested); self.nested.append(n)
         if self.spans is None or getattr(n, 'col_offset', None) is None: return str(k)          # decompiled AST: no positions, evaluation order
-        want = '<lambda>' if isinstance(n, ast.Lambda) else '<genexpr>'
-        lo, hi = (n.lineno, n.col_offset), (n.end_lineno, n.end_col_offset)
-        best = None
-        for j, name, a, b in self.spans:
-            if name == want and a is not None and lo <= a and b <= hi:
-                # the innermost node that contains the code: a node is visited before the nodes nested in it, so the first claim wins
-                if j not in self.claimed: best = j; break
-        if best is None: return 'dead@%d:%d' % lo        # CPython made no code object for it (dead operand)
-        self.claimed.add(best)
-        return str(best)
+        key = (n.lineno, n.col_offset, n.end_lineno, n.end_col_offset)
+        if key in self.spans: return str(self.spans[key])
+        return 'dead@%d:%d' % (n.lineno, n.col_offset)        # CPython made no code object for it (dead operand)
     def expr(self, n):
         E = self.expr
         if n is None: return ['none']
